@@ -11,8 +11,12 @@ QUICK TIER (tables vs ISA database, all forms)
           memory operands: access + address registers read + string pointers written                       clause mem-flags
           8/16/32-bit general-purpose writes follow SDM vol.1 3.4.1.1                                       clause byte-mask
           flags the db lists W/X/0/1/U are in write_flags(), R/X in read_flags()                            clause cpu-flags
-          query_features() covers the `ext` list of the db form that was encoded (AVX512_VL only for 128/256-bit EVEX)
-                                                                                                             clause features
+          {k}: the mask is read, merge-masking reads a register destination, gather/scatter clear (= write) their mask
+                                                                         clauses missing-read:mask|op0 missing-write:mask
+          query_features() covers the `ext` list of the db form that was encoded (decided from the VEX/EVEX/XOP escape byte
+          and the opcode of the emitted bytes; AVX512_VL only for 128/256-bit EVEX; SDM feature implications applied).
+          EVEX forms are selected the natural way (xmm16+) in 64-bit mode; with a forced {evex} option (32-bit mode) the
+          features clause is not judged                                                                      clause features
   (iii) every register-only case x every operand reported kRegMem with rm_size s: the same request with an s-byte memory
         operand validates (strict) and assembles, and the db has that memory form                            clause regmem
   (iv)  x86 forms with k+1 / zmm+3 operands and AArch64 forms with register lists (ld1-4[r], st1-4, tbl/tbx 1-4 registers,
@@ -23,6 +27,9 @@ THOROUGH TIER adds the SILICON leg: harness/c12_native.cpp executes every determ
   fixed structured set of machine states and checks write coverage, non-interference of unreported locations and #UD
   against the reported features.
 
+REPORTING: one key rw:<arch>:<mnemonic>:<form>:<clause> per (mnemonic, clause) - the first affected form in database order
+  names it, arch = x64 when the 64-bit instance shows it -; of every failure class (clause kind + what is missing + variant
+  kind) the first CAP_KEYS_PER_CLASS keys are listed, the others are counted (violation_keys_not_listed) and named in the notes.
 SOUNDNESS: only UNDER-reporting is a violation (the consumer is the register allocator); over-reported accesses are counted.
 CONVENTION: consecutive_lead_count() is compared with the TOTAL length N of the run - that is what db/x86.js produces
   (vp2intersectd k,k+1 -> 2), what a64instapi.cpp produces for ld1-4/st1-4 and what both register allocators consume
@@ -43,6 +50,11 @@ ASSUMPTIONS = [
     "APX forms (EVEX map 4 / REX2 / dfv) and mnemonics the assembler does not know are not judged (counted)",
     "feature implications of the SDM are applied (AVX512_x -> AVX512_F -> AVX2/FMA/F16C -> AVX -> SSE4.2 .. SSE)",
     "consecutive_lead_count() is interpreted as the length of the register run (see module doc)",
+    "silicon leg (thorough): modelled state = 15 GPR (not rsp), status flags + DF, zmm0-31, k0-7, one 4 KiB memory window; "
+    "x87/MMX/AMX/MXCSR/segment/stack-pointer state is not modelled, forms touching it are excluded by the stated list in "
+    "checks/c12.py (NATIVE_*); vector registers are judged at register level, their byte masks only inside the operand width",
+    "silicon leg: 4 fixed base patterns x 2 perturbations per location that is not reported read; a state that faults "
+    "(#DE, #GP, #PF) is undecided and counted",
 ]
 
 # SDM vol.1 ch.5 / 15.2 (detection hierarchy): a processor reporting the left feature also reports the right ones
@@ -120,8 +132,12 @@ def leg_tablegen(res):
     try:
         for sub in ("asmjit", "db", "tools"):
             shutil.copytree(os.path.join(repo, sub), os.path.join(d, sub), symlinks=True)
-        r = subprocess.run(["node", "tablegen-x86.js"], cwd=os.path.join(d, "tools"), stdout=subprocess.PIPE,
-                           stderr=subprocess.STDOUT, timeout=600)
+        try:
+            r = subprocess.run(["node", "tablegen-x86.js"], cwd=os.path.join(d, "tools"), stdout=subprocess.PIPE,
+                               stderr=subprocess.STDOUT, timeout=600)
+        except (OSError, subprocess.TimeoutExpired) as e:      # no node / hung: machinery problem, never a violation
+            res.errors.append("cannot run tools/tablegen-x86.js: %s" % e)
+            return viol
         if r.returncode != 0:
             viol.append(("rw:x86:tablegen:run:table-differs", "tools/tablegen-x86.js fails on the current tree (rc %d): %s" % (
                 r.returncode, r.stdout.decode("utf-8", "replace")[-400:])))
@@ -468,14 +484,17 @@ def a64_leg(exe, res, only_key=None):
 
 
 CAP_KEYS_PER_CLASS = 4      # listed keys per failure class (clause kind + reason); the rest is counted
+_NOCAP = [False]
 
 
-def aggregate(viol, res=None):
+def aggregate(viol, res=None, known=None, nocap=False):
     """One reported key per (mnemonic, clause): the first affected form in database order names it (64-bit instance
     preferred), the other forms and instances are counted and listed in the description.  Of every failure class at most
     CAP_KEYS_PER_CLASS keys are listed (a systematic defect affects hundreds of mnemonics), the rest is counted in
-    'violation_keys_not_listed'.
+    'violation_keys_not_listed'.  Keys that match a line of known_findings.txt are always listed (the driver turns them
+    into KNOWN-FINDING lines) and do NOT consume the cap, so a new defect of the same class still prints a new key.
     viol: [(key 'rw:<arch>:<mnemonic>:<form>:<clause>', desc, replay, mode or None, failure class)] in database order."""
+    known = known or {}
     groups = collections.OrderedDict()
     for key, desc, rp, mode, cls in viol:
         p = key.split(":")
@@ -493,8 +512,10 @@ def aggregate(viol, res=None):
     unlisted = collections.defaultdict(list)
     for (name, clause), g in groups.items():
         key, desc, rp, mode, form = g["first"]
-        per[g["cls"]] += 1
-        if per[g["cls"]] > CAP_KEYS_PER_CLASS:
+        is_known = runner.key_matches(known, key)[0] is not None
+        if not is_known:
+            per[g["cls"]] += 1
+        if not is_known and not nocap and per[g["cls"]] > CAP_KEYS_PER_CLASS:
             unlisted[g["cls"]].append(name)
             if res is not None:
                 res.count("violation_keys_not_listed")
@@ -520,6 +541,9 @@ def run(res, ctx):
     exe = vbuild.build("fast", os.path.join(vbuild.VERIF, SRC))
     only = ctx["opts"].get("only")
     only = set(only.split(",")) if only else None
+    known = runner.load_known("C12")
+    nocap = bool(ctx["opts"].get("nocap"))        # debugging: ./check C12 --opt nocap=1 lists every key
+    _NOCAP[0] = nocap
 
     # (i)
     if not only:
@@ -539,7 +563,7 @@ def run(res, ctx):
     res.count("x86_forms_mnemonic_unknown_to_asmjit", len(leg.unsupported_forms - leg.judged_forms))
     for e in leg.errors:
         res.errors.append(e)
-    for key, desc, rp, n in aggregate(leg.viol, res):
+    for key, desc, rp, n in aggregate(leg.viol, res, known, nocap):
         res.add_violation(key, desc, rp, n)
     for s in leg.samples:
         res.samples.append(s)
@@ -549,7 +573,7 @@ def run(res, ctx):
     # (iv) AArch64
     if not only:
         for key, desc, rp, n in aggregate([(k, d, r, None, "a64:" + k.split(":")[2] + ":" + k.rsplit(":", 2)[-2 if k.rsplit(":", 1)[-1].startswith("op") else -1])
-                                           for k, d, r in a64_leg(exe, res)], res):
+                                           for k, d, r in a64_leg(exe, res)], res, known, nocap):
             res.add_violation(key, desc, rp, n)
 
     if tier == "thorough" or ctx["opts"].get("native"):
@@ -580,7 +604,7 @@ NATIVE_KEEP_VOLATILE = {"lfence", "mfence", "sfence", "pause", "movnti", "prefet
 #  * nondeterministic / not a function of the modelled state / MXCSR / faults by design / stack pointer
 NATIVE_EXCLUDE_NAMES = {
     "rdtsc", "rdtscp", "rdrand", "rdseed", "rdpid", "rdpkru", "wrpkru", "rdpru", "cpuid", "xgetbv", "rdpmc",
-    "push", "pop", "pushf", "pushfd", "pushfq", "popf", "popfd", "popfq", "pusha", "pushad", "popa", "popad", "enter", "leave",
+    "push", "pop", "pushw", "popw", "pushf", "pushfd", "pushfq", "popf", "popfd", "popfq", "pusha", "pushad", "popa", "popad", "enter", "leave",
     "ldmxcsr", "vldmxcsr", "stmxcsr", "vstmxcsr", "ud0", "ud1", "ud2", "int1", "icebp", "into", "int", "int3", "bound",
     "in", "out", "ins", "outs", "insb", "insw", "insd", "outsb", "outsw", "outsd", "cli", "sti", "hlt",
     "lar", "lsl", "verr", "verw", "sgdt", "sidt", "sldt", "str", "smsw", "lds", "les", "lfs", "lgs", "lss", "arpl",
@@ -793,7 +817,7 @@ def _merge_native(res, tmp):
             res.add_violation(v["key"], v["desc"], v["replay"], v["count"])      # harness crash
             continue
         items.append((v["key"], v["desc"], v["replay"], 64, _native_class(v["key"], v["desc"])))
-    for key, desc, rp, n in aggregate(items, res):
+    for key, desc, rp, n in aggregate(items, res, runner.load_known("C12"), _NOCAP[0]):
         res.add_violation(key, desc, rp, n)
 
 
